@@ -72,6 +72,8 @@ pub fn run_calls(sim: &Sim, _idx: u64) {
     let (sopts, copts) = draw_h2_opts(sim);
     let netcfg = NetCfg::draw(sim);
     let calls = gen_calls(sim, m, n, 40_000);
+    crate::rawcodec::draw_styles(sim);
+    c02::draw_client_clone_mode(sim);
     crate::rawcodec::set_cfg(crate::rawcodec::RawCfg { enc_buffer: sim.pick(&[64usize, 8192]), enc_yield: sim.pick(&[0usize, 64, 32768]), dec_buffer: sim.pick(&[64usize, 8192]), dec_yield: 32768 });
     sim.sample(|| format!("connections={m} h2 server opts {sopts:?} client opts {copts:?} net {netcfg:?} comp {comp:?}; calls: {:?}", calls.iter().map(|c| format!("conn{} svc{} {} req{:?} resp{:?} end={:?}", c.conn, c.svc, SHAPES[c.plan.shape], c.plan.req_msgs.iter().map(|m| m.len()).collect::<Vec<_>>(), c.plan.script.msgs.iter().map(|m| m.len()).collect::<Vec<_>>(), c.plan.script.end.as_ref().map(|e| e.code))).collect::<Vec<_>>()));
     sim.ev(|| format!("config: connections={m} calls={n} server {sopts:?} client {copts:?} net {netcfg:?}"));
@@ -564,4 +566,73 @@ pub fn run_hostile_server(sim: &Sim, idx: u64) {
         sim.violation("C04/run-hangs", "the scenario did not finish within the virtual horizon".into());
     }
     let _ = gen_status;
+}
+
+/// C03: every gRPC response tonic produces — also the ones nobody's handler wrote: an unknown
+/// method of a known service (the generated fallback arm), an unknown service or an odd path (the
+/// router's fallback) — has HTTP status 200, content-type application/grpc and exactly one
+/// grpc-status (UNIMPLEMENTED), as a raw h2 client sees it.
+pub fn run_unknown_path(sim: &Sim, _idx: u64) {
+    const PATHS: [&str; 12] = [
+        "/sim.Raw/NoSuchMethod", "/sim.Raw/unary", "/sim.Raw/", "/sim.Raw/Unary/extra", "/echo.Echo/NoSuchMethod", "/Bare/NoSuchMethod",
+        "/no.such.Service/Method", "/", "/sim.Raw", "/sim.RawX/Unary", "/sim.raw/Unary", "//sim.Raw/Unary",
+    ];
+    let path = sim.pick(&PATHS);
+    let (sopts, _c) = draw_h2_opts(sim);
+    let netcfg = NetCfg::draw(sim);
+    let with_body = sim.chance(1, 2);
+    let comp = if sim.chance(1, 2) { CompCfg { server_accept: indep::ALL_ENC.to_vec(), server_send: vec![sim.pick(&indep::ALL_ENC)], client_send: None, client_accept: vec![] } } else { CompCfg { server_accept: vec![], server_send: vec![], client_send: None, client_accept: vec![] } };
+    sim.nontrivial();
+    sim.sample(|| format!("unknown path {path:?}, request body={with_body}"));
+    sim.ev(|| format!("config: path {path:?} body={with_body}"));
+    let out = run_sim(sim, Duration::from_secs(10_000), || async {
+        let (net, _connector, rx) = net_and_connector(sim, netcfg, vec![]);
+        let handler = Handler::new(sim);
+        drop(rx);
+        let (tx2, rx2) = tokio::sync::mpsc::unbounded_channel();
+        let _srv = spawn_server::<std::future::Pending<()>>(&handler, &comp, &sopts, rx2, None);
+        let (cio, sio) = net.pair();
+        let _ = tx2.send(sio);
+        let headers: Vec<(String, Vec<u8>)> = vec![("content-type".into(), b"application/grpc".to_vec()), ("te".into(), b"trailers".to_vec()), ("grpc-accept-encoding".into(), b"gzip,deflate,zstd".to_vec())];
+        let chunks = if with_body { vec![indep::frame(0, b"ping")] } else { vec![] };
+        let rec = match tokio::time::timeout(Duration::from_secs(600), raw_client_call(sim, cio, path, &headers, chunks)).await {
+            Ok(r) => r,
+            Err(_) => return sim.violation("C03/call-hangs", format!("raw client call to {path:?} did not complete")),
+        };
+        let who = format!("response to the unknown path {path:?}");
+        if let Some(e) = &rec.error {
+            // the server may reset the stream after answering (it does not read the request body);
+            // what matters is the answer, if headers arrived
+            if rec.status.is_none() {
+                return sim.violation("C03/response-stream-error", format!("{who}: {e}"));
+            }
+        }
+        if !handler.entered().is_empty() {
+            sim.violation("C03/handler-entered-for-unknown-path", format!("{who}: a handler was invoked"));
+        }
+        if rec.status != Some(http::StatusCode::OK) {
+            sim.violation("C03/response-status-not-200", format!("{who}: {:?}", rec.status));
+        }
+        let cts: Vec<_> = rec.headers.get_all("content-type").iter().collect();
+        if cts.len() != 1 || cts[0].as_bytes() != b"application/grpc" {
+            sim.violation("C03/response-content-type-wrong", format!("{who}: {cts:?}"));
+        }
+        let hs = c03::count_status(&rec.headers);
+        let ts = rec.trailers.as_ref().map(c03::count_status).unwrap_or(0);
+        if hs + ts != 1 {
+            sim.violation("C03/not-exactly-one-grpc-status", format!("{who}: {hs} in headers, {ts} in trailers"));
+        }
+        let block = rec.trailers.as_ref().filter(|_| ts > 0).unwrap_or(&rec.headers);
+        let code: Option<i32> = block.get("grpc-status").and_then(|v| v.to_str().ok()).and_then(|s| s.parse().ok());
+        if code != Some(12) {
+            sim.violation("C03/unknown-path-not-unimplemented", format!("{who}: grpc-status {code:?}"));
+        }
+        if !rec.body.is_empty() {
+            sim.violation("C03/body-on-unimplemented-response", format!("{who}: {} body bytes", rec.body.len()));
+        }
+        sim.probe("unknown-path-answered");
+    });
+    if out.is_none() {
+        sim.violation("C03/run-hangs", "the scenario did not finish within the virtual horizon".into());
+    }
 }
